@@ -72,15 +72,15 @@ theorem shift_equivariant_setFeatureProperties (k : Int) (chr : String) (delta :
 /-- one read: `add_read_info_from_profile` on the shifted counter with the shifted property map -/
 theorem shift_equivariant_addReadInfoFromProfile (k : Int) (st : PCounter CoordKey) (prof : List Int)
     (pm : List FeatureInfo) (g : String) :
-    addReadInfoFromProfile coordKey (shiftCounter k st) prof (pm.map (shiftFI k)) g =
-      (addReadInfoFromProfile coordKey st prof pm g).map (shiftCounter k) :=
+    addReadInfoFromProfile coordKey FeatureInfo.merge (shiftCounter k st) prof (pm.map (shiftFI k)) g =
+      (addReadInfoFromProfile coordKey FeatureInfo.merge st prof pm g).map (shiftCounter k) :=
   fc_addReadInfoFromProfile_shift k st prof pm g
 
 /-- **shift_equivariant_count_rows** — a whole history of reads: the counter fed with the shifted property maps dumps
     the shifted rows (same order, same groups, same include / exclude counts); an IndexError stays an IndexError -/
 theorem shift_equivariant_count_rows (k : Int) (ig : Bool) (dg : String) (evs : List ReadEv) :
-    (countAll coordKey ig dg (evs.map (shiftReadEv k))).map dumpRows =
-      (countAll coordKey ig dg evs).map (fun st => (dumpRows st).map (shiftRow k)) := by
+    (countAll coordKey FeatureInfo.merge ig dg (evs.map (shiftReadEv k))).map dumpRows =
+      (countAll coordKey FeatureInfo.merge ig dg evs).map (fun st => (dumpRows st).map (shiftRow k)) := by
   have h := fc_runCounter_shift k ig dg evs (PCounter.init ig dg)
   have h0 : shiftCounter k (PCounter.init ig dg : PCounter CoordKey) = PCounter.init ig dg := rfl
   rw [h0] at h
@@ -94,9 +94,9 @@ example :
     let fi1 : FeatureInfo := ⟨1, "chr1", 100, 200, "+", "TU", ["G"]⟩
     let fi2 : FeatureInfo := ⟨2, "chr1", 300, 400, "+", "TU", ["G"]⟩
     let evs : List ReadEv := [⟨[1, -1], [fi1, fi2], "g"⟩, ⟨[1, 1], [fi1, fi2], "g"⟩]
-    ((countAll coordKey false "NA" evs).map dumpRows).map (List.map (fun r => (r.fi.start, r.incl, r.excl)))
+    ((countAll coordKey FeatureInfo.merge false "NA" evs).map dumpRows).map (List.map (fun r => (r.fi.start, r.incl, r.excl)))
       = some [(100, 2, 0), (300, 1, 1)] ∧
-    ((countAll coordKey false "NA" (evs.map (shiftReadEv 1000))).map dumpRows).map
+    ((countAll coordKey FeatureInfo.merge false "NA" (evs.map (shiftReadEv 1000))).map dumpRows).map
         (List.map (fun r => (r.fi.start, r.incl, r.excl))) = some [(1100, 2, 0), (1300, 1, 1)] := by decide
 
 end IsoVerif.Props.C11Counts
